@@ -237,6 +237,7 @@ func init() {
 				var conc []interface{}
 				var last *sessionsapi.SessionState
 				var ident *sessionsapi.SessionState
+				before := ""
 				for _, st := range c.Steps {
 					obs := map[string]interface{}{}
 					switch st.A {
@@ -275,6 +276,7 @@ func init() {
 							}
 						}
 						s.Groups = append(s.Groups, fmt.Sprintf("save-%d", id))
+						before = jar.header()
 						n, maxLen, err := w.saveVia(jar, s)
 						if err != nil {
 							obs["error"] = err.Error()
@@ -283,7 +285,17 @@ func init() {
 						loaded, intact := w.observeLoad(jar, s)
 						obs["loaded"], obs["intact"], obs["maxCookie"], obs["parts"] = loaded, intact, maxLen, n
 						conc = append(conc, map[string]interface{}{"save": id, "tokenLen": L, "cookies": n, "jar": jar.names()})
+					case "inflight":
+						// a request that left the browser before the last step (it presents what the jar held then) is answered now;
+						// the browser applies the answer - the last save (or clear) must stand
+						r := w.do(vpReq{Target: w.prefix() + "/userinfo", Cookie: before})
+						jar.applyAll(r)
+						loaded, intact := w.observeLoad(jar, last)
+						obs["loaded"], obs["intact"] = loaded, intact
+						obs["status"] = r.Status
+						conc = append(conc, map[string]interface{}{"inflight": true, "jar": jar.names()})
 					case "clear":
+						before = jar.header()
 						r := w.do(vpReq{Target: w.prefix() + "/sign_out", Cookie: jar.header()})
 						jar.applyAll(r)
 						last = nil
